@@ -26,3 +26,16 @@ def search(ctx, broken):
 def replay(ctx, path):
     c01.PID, c01.MODE = PID, MODE
     return c01.replay(ctx, path)
+
+
+def replay_finding(ctx, f):
+    """scripted history of a (fixed) finding: does the reference-map oracle still flag it / does the harness crash?"""
+    import os
+    from lib import vlib
+    if not f.get("script"):
+        return None
+    try:
+        c = l2common.run_script(ctx, os.path.join(vlib.VERIF, f["script"]))
+    except RuntimeError:
+        return True
+    return bool(l2common.refmap_oracle(c))
